@@ -3,7 +3,10 @@
 // on 1-8 concurrent client connections against a proxy with a fresh Prometheus registry; at the
 // quiescent point after each round the registry is compared with the model's counters and the
 // conservation clauses are evaluated on it. listener.go drives the exported Listener/Dialer types
-// directly (byte counters, concurrent double Close).
+// directly (byte counters, concurrent double Close); builder.go conntrack.Builder over connections whose
+// Close and I/O return anything; stack.go every listener stacking with connections ended by the stack,
+// the peer or the server; cut.go and pxcut.go byte accounting when I/O is cut short (directly and
+// through the real proxy).
 package c13
 
 import (
